@@ -177,7 +177,20 @@ func lifeFamily(id, tier string, p map[string]bool, tweak func(kind string, o *L
 	if tweak != nil {
 		tweak("super", &g)
 	}
-	return []*engine.Scenario{LifeScenario(a), LifeScenario(b), LifeScenario(c), LifeScenario(dd), LifeScenario(e), LifeScenario(f), LifeScenario(g)}
+	// h: every order is paid by another DID than its owner (charge, refund and settlement follow the payer)
+	hh := r1Life(id, tier, p)
+	hh.ID = id + "-life-paid-by-other"
+	hh.NoPlain = true
+	hh.Cancel, hh.Drain, hh.Migrate = true, false, false
+	hh.Depth = 5
+	if tier == "thorough" {
+		hh.Depth = 7
+		hh.Migrate = true
+	}
+	if tweak != nil {
+		tweak("paid-by-other", &hh)
+	}
+	return []*engine.Scenario{LifeScenario(a), LifeScenario(b), LifeScenario(c), LifeScenario(dd), LifeScenario(e), LifeScenario(f), LifeScenario(g), LifeScenario(hh)}
 }
 
 func init() {
